@@ -12892,7 +12892,7 @@ tsk_table_collection_add_and_remap_node(tsk_table_collection_t *self,
             ret_id = tsk_individual_table_add_row(&self->individuals, ind.flags,
                 ind.location, ind.location_length, ind.parents, ind.parents_length,
                 ind.metadata, ind.metadata_length);
-            if (ret < 0) {
+            if (ret_id < 0) {
                 ret = (int) ret_id;
                 goto out;
             }
